@@ -100,7 +100,7 @@ def run_tlc(
     e = dict(os.environ)
     if env:
         e.update({k: str(v) for k, v in env.items()})
-    e.setdefault("JAVA_TOOL_OPTIONS", "-Xmx8g")
+    e.setdefault("JAVA_TOOL_OPTIONS", "-Xmx8g -Xss256m")
     if dfs_queue:
         e["JAVA_TOOL_OPTIONS"] = (e.get("JAVA_TOOL_OPTIONS", "") +
                                   " -Dtlc2.tool.queue.IStateQueue=StateDeque").strip()
